@@ -256,16 +256,177 @@ def record_silent_payments(run: Run, rnd: random.Random, thorough: bool, evs: li
     return stats
 
 
+def record_psbt_musig(run: Run, rnd: random.Random, thorough: bool, evs: list[dict[str, Any]]) -> dict[str, int]:
+    """BIP373: both rounds of a session run over a psbt, each signer on its own copy, merged by the Combiner, aggregated by the Finalizer and spent.
+
+    The four ways the aggregate key reaches the key being spent (it is the output key; it is the internal key, with and without a script tree; the internal
+    key is BIP328-derived from it; it is the key of a leaf script) are told to the specification as what the psbt says, not as tweaks.
+    """
+    from copy import deepcopy
+
+    from btclib.bip32 import BIP328_CHAIN_CODE, BIP32KeyOrigin, pub_key_derivation_tweaks
+    from btclib.curves import mult, secp256k1
+    from btclib.ecc import musig2 as m2
+    from btclib.hashes import hash160
+    from btclib.psbt import Psbt, combine, extract_tx, finalize
+    from btclib.psbt import musig2 as pm
+    from btclib.psbt.psbt import prevouts, taproot_sig_hash
+    from btclib.script import taproot
+    from btclib.script.engine import verify_transaction
+    from btclib.tx import OutPoint, Tx, TxIn, TxOut
+
+    stats = {"sessions": 0, "output": 0, "internal": 0, "derived": 0, "leaf": 0, "refused": 0}
+    other_leaf = (0xC0, ["OP_1"])
+    plans = [(way, n, tree, sort) for way in ("output", "internal", "derived", "leaf") for n in ((1, 2, 3) if thorough else (2, 3)) for tree in (False, True) for sort in (False, True)
+             if not (way == "output" and tree) and (thorough or sort == (n == 3))]
+    for rep in range(2 if thorough else 1):
+        for way, n, tree, sort in plans:
+            keys = [rnd.randrange(1, N) for _ in range(n)]
+            pubs = [sec(mult(k)) for k in keys]
+            if sort:
+                order = sorted(range(n), key=lambda j: pubs[j])
+                keys, pubs = [keys[j] for j in order], [pubs[j] for j in order]
+            agg = sec(m2.key_agg(pubs).Q)
+            path = [rnd.randrange(0, 1 << 31) for _ in range(rnd.choice([1, 2, 3]))] if way == "derived" else []
+            internal, root, leaf_h, leaf_scripts, hd = b"", b"", b"", {}, {}
+            if way == "output":
+                out_key = agg[1:]
+            elif way in ("internal", "derived"):
+                if way == "derived":
+                    ctx = m2.key_agg_and_tweak(pubs, pub_key_derivation_tweaks(agg, BIP328_CHAIN_CODE, path), [False] * len(path))
+                    internal = ctx.x_only_pub_key
+                    hd = {internal: ([], BIP32KeyOrigin(hash160(agg)[:4], path))}
+                else:
+                    internal = agg[1:]
+                root = taproot.tree_helper([other_leaf])[1] if tree else b""
+                out_key = taproot.output_pubkey_from_merkle_root(internal, root)[0]
+            else:
+                internal = sec(mult(rnd.randrange(1, N)))[1:]
+                leaf = (0xC0, [agg[1:].hex(), "OP_CHECKSIG"])
+                script_tree: Any = [[leaf], [other_leaf]] if tree else [leaf]
+                info, root = taproot.tree_helper(script_tree)
+                out_key, parity = taproot.output_pubkey_from_merkle_root(internal, root)
+                script = taproot.serialize(leaf[1]) if hasattr(taproot, "serialize") else b""
+                leaf_h = taproot.leaf_hash(0xC0, script)
+                leaf_scripts = {bytes([0xC0 + parity]) + internal + info[0][1]: (script, 0xC0)}
+            spk = b"\x51\x20" + out_key
+            value = rnd.randrange(10_000, 10_000_000)
+            tx = Tx(2, 0, [TxIn(OutPoint(rnd.randbytes(32), rnd.randrange(4)), b"", 0xFFFFFFFD)], [TxOut(value - 500, bytes.fromhex("0014") + rnd.randbytes(20))])
+            psbt = Psbt.from_tx(tx)
+            pin = psbt.inputs[0]
+            pin.witness_utxo = TxOut(value, spk)
+            if way != "output":
+                pin.taproot_internal_key = internal
+                pin.taproot_merkle_root = root
+            pin.taproot_hd_key_paths = hd
+            pin.taproot_leaf_scripts = leaf_scripts
+            if rnd.random() < 0.5:
+                psbt = psbt.to_v2()
+            got = pm.add_participant_pub_keys(psbt.inputs[0], pubs, sort=sort)
+            psbt.assert_valid()
+            kw = {"leaf_hash": leaf_h} if leaf_h else {}
+            spent = prevouts(psbt)
+
+            def session() -> dict[str, Any]:
+                round_1 = [deepcopy(psbt) for _ in keys]
+                secnonces = [pm.nonce_gen(c, 0, k, agg, **kw) for c, k in zip(round_1, keys)]
+                nonces_in = combine(round_1)
+                round_2 = [deepcopy(nonces_in) for _ in keys]
+                for c, k, sn in zip(round_2, keys, secnonces):
+                    pm.partial_sign(c, 0, sn, k, agg, **kw)
+                signed = combine(round_2)
+                pin2 = signed.inputs[0]
+                tweaked = next(iter(pin2.musig2_pub_nonces))[33:66]
+                nonces = [pin2.musig2_pub_nonces[pk + tweaked + leaf_h] for pk in pubs]
+                psigs = [pin2.musig2_partial_sigs[pk + tweaked + leaf_h] for pk in pubs]
+                verifies = [pm.partial_sig_verify(signed, 0, pk, agg, **kw) for pk in pubs]
+                msg = taproot_sig_hash(signed, 0, **kw)
+                sig = pm.partial_sigs_agg(signed, 0, agg, **kw)
+                verify_transaction(spent, extract_tx(finalize(signed)))
+                return {"pubnonces": [{"r1": x[:33].hex(), "r2": x[33:].hex()} for x in nonces], "psigs": [x.hex() for x in psigs], "verifies": verifies, "msg": msg.hex(),
+                        "r": nat(sig.r), "s": nat(sig.s), "accepted": True}
+
+            r = outcome(session)
+            e = {"op": "psbtmusig", "way": way, "pks": [x.hex() for x in pubs], "agg": got.hex(), "internal": internal.hex(), "root": root.hex(), "path": path,
+                 "spent_key": (agg[1:] if way == "leaf" else out_key).hex(), "what": f"{way} n={n} tree={tree} sorted={sort} v{psbt.version}"}
+            if isinstance(r, str):
+                stats["refused"] += 1
+                e.update({"pubnonces": [], "psigs": [], "verifies": [], "msg": "", "r": nat(0), "s": nat(0), "accepted": False, "refusal": r})
+            else:
+                e.update(r)
+            evs.append(e)
+            stats["sessions"] += 1
+            stats[way] += 1
+    return stats
+
+
+def record_rings(run: Run, rnd: random.Random, thorough: bool, evs: list[dict[str, Any]]) -> dict[str, int]:
+    """Borromean ring signatures made by the library over 1-3 rings of 1-4 keys with the signer at every position, and single alterations of each
+    (another message, one s-value, e0, one ring key, two keys swapped); Pedersen commitments incl. the zero blinding factor / value and the infinite sum."""
+    from btclib.curves import mult
+    from btclib.ecc import borromean, pedersen
+
+    stats = {"signatures": 0, "altered": 0, "altered_accepted": 0, "commitments": 0}
+    shapes = [[1], [2], [3], [4], [2, 3], [3, 1, 2]] + ([[4, 4], [1, 1, 1], [2, 2, 2, 2]] if thorough else [])
+
+    def ev(what: str, msg: bytes, sig: Any, rings: list[list[Any]]) -> None:
+        out = outcome(lambda: borromean.verify(msg, sig, rings))
+        evs.append({"op": "ring", "what": what, "msg": msg.hex(), "rings": [[sec(P).hex() for P in ring] for ring in rings], "e0": sig.e0.hex(), "s": [[nat(x) for x in row] for row in sig.s],
+                    "out": out if isinstance(out, bool) else False, "refusal": "" if isinstance(out, bool) else out})
+
+    for shape in shapes:
+        positions = [[rnd.randrange(n) for n in shape] for _ in range(2)] + [[0] * len(shape), [n - 1 for n in shape]]
+        for at in positions[: 4 if thorough else 3]:
+            keys = [[rnd.randrange(1, N) for _ in range(n)] for n in shape]
+            rings = [[mult(k) for k in row] for row in keys]
+            msg = rnd.randbytes(rnd.choice([0, 1, 32, 70]))
+            sig = borromean.sign(msg, [rnd.randrange(1, N) for _ in shape], at, [keys[a][at[a]] for a in range(len(shape))], rings)
+            ev(f"honest {shape} at {at}", msg, sig, rings)
+            ev(f"honest {shape} at {at}, serialized", msg, borromean.BorromeanSig.parse(sig.serialize(), shape), rings)
+            stats["signatures"] += 1
+            a = rnd.randrange(len(shape))
+            b = rnd.randrange(shape[a])
+            s2 = [list(row) for row in sig.s]
+            s2[a][b] = (s2[a][b] + 1) % N
+            r2 = [list(row) for row in rings]
+            r2[a][b] = mult(rnd.randrange(1, N))
+            alts = [("another message", msg + b"\x00", sig, rings), ("one s-value", msg, borromean.BorromeanSig(sig.e0, s2), rings),
+                    ("e0", msg, borromean.BorromeanSig(bytes([sig.e0[0] ^ 1]) + sig.e0[1:], sig.s), rings), ("one ring key", msg, sig, r2)]
+            if shape[a] > 1:
+                r3 = [list(row) for row in rings]
+                r3[a][0], r3[a][1] = r3[a][1], r3[a][0]
+                alts.append(("two keys swapped", msg, sig, r3))
+            if len(shape) > 1:
+                alts.append(("rings reversed", msg, sig, rings[::-1]))
+            for what, m2, sg, rg in alts:
+                ev(f"{what} ({shape} at {at})", m2, sg, rg)
+                stats["altered"] += 1
+                stats["altered_accepted"] += evs[-1]["out"]
+    H = pedersen.second_generator()
+    evs.append({"op": "secondgen", "out": pt(H)})
+    for r, v in [(0, 0), (0, 1), (1, 0), (N - 1, N - 1), (N, 5), (5, N), (N + 3, 2 * N + 9)] + [(rnd.randrange(N), rnd.randrange(1 << rnd.choice([1, 32, 64, 256]))) for _ in range(8 if thorough else 4)]:
+        q = outcome(lambda: pedersen.commit(r, v))
+        evs.append({"op": "commit", "r": nat(r), "v": nat(v), "refused": isinstance(q, str), "out": pt(q) if not isinstance(q, str) else {"inf": 1}, "refusal": q if isinstance(q, str) else ""})
+        if not isinstance(q, str):
+            evs.append({"op": "holds", "what": "a commitment opens to what was committed", "ok": pedersen.verify(r, v, q) is True})
+            evs.append({"op": "fails", "what": "a commitment opens to another value", "ok": pedersen.verify(r, v + 1, q) is True})
+            evs.append({"op": "fails", "what": "a commitment opens with another blinding factor", "ok": pedersen.verify(r + 1, v, q) is True})
+        stats["commitments"] += 1
+    return stats
+
+
 def check(run: Run) -> None:
     thorough = run.tier == "thorough"
     rnd = random.Random(run.seed)
     run.rule = ("toy curve: every pair (thorough: also every triple with one tweak) of private keys incl. duplicates x every sequence of up to 2 plain/x-only tweaks x 2 nonces x with/without "
                 "adaptor; secp256k1: sessions of 1-3 (5) signers x 6 tweak shapes x message lengths 32/0/45 x adaptors, arbitrary and sorted key orders, duplicate keys; ECDH x 3 hash "
                 "functions x 5 sizes; BIE1 with the recipient key in 5 spellings; DLEQ proofs and 6 altered statements each; silent payments with 1-4 inputs (taproot or not), 1-5 "
-                "recipients of 3 wallets (labels, repeats, interleaving), decoys, both scanning entry points")
+                "recipients of 3 wallets (labels, repeats, interleaving), decoys, both scanning entry points; BIP373 sessions over a psbt in the four ways the aggregate key reaches the spent key "
+                "(output key, internal key, BIP328-derived internal key, leaf key) x 2-3 signers x with/without script tree x sorted or not x v0/v2, each signer on its own copy; Borromean "
+                "signatures on the toy curve for every ring shape up to 3x3, signer position and key; on secp256k1 over 6-9 shapes with 6 alterations each; Pedersen commitments")
     run.assumptions = ["the cipher of BIE1 is the caller's (an involutive toy cipher here): the envelope, key derivation and MAC are btclib's",
                        "ElligatorSwift is bound by agreement only (both parties derive one secret; decode inverts encode): its map is not re-specified",
-                       "pedersen and borromean (not used by any other module) are not covered"]
+                       "borromean and pedersen are specified generically (RingSig) and model-checked on the toy curve; the recorded signatures and commitments are secp256k1 / sha256"]
     cfgs = [("2 signers", MODEL_CFG.format(n=2, t=2 if thorough else 1, tv="1, 17", nv="3, 11" if thorough else "3"))]
     if thorough:
         cfgs.append(("3 signers", MODEL_CFG.format(n=3, t=1, tv="17", nv="3")))
@@ -274,11 +435,23 @@ def check(run: Run) -> None:
         for v in res.violations:
             raise tlc.TLCFailure(f"MuSig2Model violates {v.name}:\n{v.text[:600]}")
         run.tlc(res, f"M MuSig2Model {name}")
+    ring_cfg = ("SPECIFICATION Spec\nCONSTANTS Shapes <- ShapesC\nKeyVals = {%s}\nNonceVals = {3, 11}\nForgedVals = {%s}\nINVARIANT SignedVerifies\nINVARIANT ShapeMismatchFails\n"
+                "INVARIANT CommitOpens\nINVARIANT CommitAdds\nINVARIANT SecondGeneratorOnCurve\nCHECK_DEADLOCK FALSE\n") % (("1, 2, 9, 17, 30", "1, 6, 13") if thorough else ("1, 17, 30", "1, 6"))
+    res = tlc.run("RingSigModel", cfg_text=ring_cfg, workers=16, timeout=6000)
+    for v in res.violations:
+        raise tlc.TLCFailure(f"RingSigModel violates {v.name}:\n{v.text[:600]}")
+    run.tlc(res, "M RingSigModel")
+    for probe in ("NeverSigned", "NeverFails"):          # vacuity: some signing completes and some fails on 31 points
+        pr = tlc.run("RingSigModel", cfg_text=ring_cfg.split("INVARIANT")[0] + f"INVARIANT {probe}\nCHECK_DEADLOCK FALSE\n", workers=4, timeout=600, check=False)
+        if not any(v.name == probe for v in pr.violations):
+            raise tlc.TLCFailure(f"RingSigModel is vacuous: {probe} holds")
     evs: list[dict[str, Any]] = []
     s1 = record_musig(run, rnd, thorough, evs)
     s2 = record_two_party(run, rnd, thorough, evs)
     s3 = record_silent_payments(run, rnd, thorough, evs)
-    keep = ("op", "pks", "tweaks", "pubnonces", "msg", "adaptor", "psigs", "verifies", "aggpk", "r", "s", "valid", "adapted_s", "adapted_valid", "extracted", "d", "q", "size", "info", "hf", "out",
+    s4 = record_psbt_musig(run, rnd, thorough, evs)
+    s5 = record_rings(run, rnd, thorough, evs)
+    keep = ("rings", "e0", "v", "refused", "way", "agg", "internal", "root", "path", "spent_key", "accepted", "op", "pks", "tweaks", "pubnonces", "msg", "adaptor", "psigs", "verifies", "aggpk", "r", "s", "valid", "adapted_s", "adapted_valid", "extracted", "d", "q", "size", "info", "hf", "out",
             "iv", "ke", "km", "a", "b", "c", "g", "proof", "ok", "inputs", "outpoints", "rs", "outs", "bscan", "bspend", "labels", "found")
     compact = [{k: v for k, v in e.items() if k in keep} for e in evs]
     results, bad, diag = events.validate("C16Trace", compact, batch=400, timeout=6000)
@@ -290,9 +463,9 @@ def check(run: Run) -> None:
         run.violation(f"protocols|{e['op']}|{what}", f"{e['op']}: the specification does not explain {({kk: (vv if not isinstance(vv, (str, list)) or len(vv) < 70 else '...') for kk, vv in e.items()})}; "
                       f"expected {str(diag.get(k))[:500]}", {"event": e, "expected": str(diag.get(k))[:3000]})
     run.sample({"event": {k: (v if not isinstance(v, (str, list)) or len(str(v)) < 100 else str(v)[:100]) for k, v in next(e for e in evs if e["op"] == "musig").items()}})
-    run.section("events", {"musig2": s1, "two_party": s2, "silent_payments": s3, "by_op": {op: sum(1 for e in evs if e["op"] == op) for op in sorted({e["op"] for e in evs})}})
-    if s1["sessions"] < 10 or s3["found"] < 5:
-        raise tlc.TLCFailure(f"C16 harness is vacuous: {s1} {s3}")
+    run.section("events", {"musig2": s1, "two_party": s2, "silent_payments": s3, "psbt_musig2": s4, "rings_commitments": s5, "by_op": {op: sum(1 for e in evs if e["op"] == op) for op in sorted({e["op"] for e in evs})}})
+    if s1["sessions"] < 10 or s3["found"] < 5 or min(s4[w] for w in ("output", "internal", "derived", "leaf")) < 2 or s5["signatures"] < 10:
+        raise tlc.TLCFailure(f"C16 harness is vacuous: {s1} {s3} {s4}")
     run.count(evaluations=len(evs), validated=len(evs), nontrivial=len(evs))
 
 
